@@ -40,13 +40,39 @@ def _owners():
             if isinstance(v, type) and getattr(v, "__module__", "").startswith("ufl") and id(v) not in seen:
                 seen.add(id(v))
                 owners.append(("c", v))
+    # long-lived module-level instances of ufl classes (the global measures dx/ds/dS, cells,
+    # pull-backs, Sobolev spaces): their attribute dicts can be polluted by a buggy algorithm
+    for m in mods:
+        for v in list(vars(m).values()):
+            if isinstance(v, (type, types.ModuleType, types.FunctionType)) or id(v) in seen:
+                continue
+            if getattr(type(v), "__module__", "").startswith("ufl"):
+                seen.add(id(v))
+                owners.append(("i", v))
     return owners
+
+
+def _attrs(o):
+    """Attribute dict of a class / module / instance (instances: __dict__ and slots)."""
+    if isinstance(o, (type, types.ModuleType)):
+        return vars(o)
+    d = {}
+    for c in type(o).__mro__:
+        for name in getattr(c, "__slots__", ()) or ():
+            if isinstance(name, str) and hasattr(o, name):
+                try:
+                    d[name] = getattr(o, name)
+                except Exception:
+                    pass
+    if hasattr(o, "__dict__"):
+        d.update(vars(o))
+    return d
 
 
 def capture():
     snap = []
     for kind, o in _owners():
-        d = vars(o)
+        d = _attrs(o)
         names = set(d.keys())
         items = []
         for k, v in list(d.items()):
@@ -68,7 +94,7 @@ def capture():
 
 def restore(snap):
     for kind, o, names, items in snap:
-        d = vars(o)
+        d = _attrs(o)
         if kind == "c":
             # class attributes created since capture (e.g. lazily created counters)
             for k in [k for k in d.keys() if k not in names]:
